@@ -28,6 +28,7 @@ pub enum PKey {
     Refuse,
     Log,
     TrapUninstall,
+    OnlyTransfer,
 }
 
 #[contract]
@@ -45,7 +46,20 @@ impl MockPolicy {
     pub fn reset_log(e: &Env) {
         e.storage().instance().remove(&PKey::Log);
     }
-    pub fn can_enforce(e: &Env, _context: Context, _authenticated_signers: Vec<Signer>, _context_rule: ContextRule, _smart_account: Address) -> bool {
+    /// while set, the policy accepts only calls of a function named `transfer` (a context-dependent policy)
+    pub fn set_only_transfer(e: &Env, on: bool) {
+        e.storage().instance().set(&PKey::OnlyTransfer, &on);
+    }
+    pub fn can_enforce(e: &Env, context: Context, _authenticated_signers: Vec<Signer>, _context_rule: ContextRule, _smart_account: Address) -> bool {
+        if e.storage().instance().get(&PKey::OnlyTransfer).unwrap_or(false) {
+            let is_transfer = match &context {
+                Context::Contract(c) => c.fn_name == soroban_sdk::Symbol::new(e, "transfer"),
+                _ => false,
+            };
+            if !is_transfer {
+                return false;
+            }
+        }
         e.storage().instance().get(&PKey::Can).unwrap_or(true)
     }
     pub fn enforce(e: &Env, context: Context, authenticated_signers: Vec<Signer>, context_rule: ContextRule, smart_account: Address) {
